@@ -53,7 +53,8 @@ func zzvC11Configs(thorough bool) map[string]*telemetry.UploadConfig {
 	p2e := &telemetry.ProgramConfig{Name: "cmd/go", Versions: []string{"go1.21.0"}, Counters: []telemetry.CounterConfig{{Name: "e", Rate: 1}, {Name: "f:{x,y}", Rate: 1}}, Stacks: []telemetry.CounterConfig{{Name: "t", Rate: 1, Depth: 3}}}
 	out := map[string]*telemetry.UploadConfig{
 		"two-programs-different-counters": mk([]string{"linux"}, []string{"amd64"}, []string{"go1.21.0"}, p1([]string{"c", "d:{a,b}"}, []string{"s"}), p2e),
-		"basic":       mk([]string{"linux"}, []string{"amd64"}, []string{"go1.21.0"}, p1([]string{"c", "d:{a,b}"}, []string{"s"})),
+		// g and h: only buckets are configured; the data has another bucket of g and the bare name h
+		"basic":       mk([]string{"linux"}, []string{"amd64"}, []string{"go1.21.0"}, p1([]string{"c", "d:{a,b}", "g:{a,b}", "h:{a}"}, []string{"s"})),
 		"two-os":      mk([]string{"linux", "darwin"}, []string{"amd64", "arm64"}, []string{"go1.21.0", "go1.22.0"}, p1([]string{"c"}, []string{"s", "c"}), p2),
 		"no-stacks":   mk([]string{"linux"}, []string{"amd64"}, []string{"go1.21.0"}, p1([]string{"c:{a}", "s"}, nil)),
 		"no-programs": mk([]string{"linux"}, []string{"amd64"}, []string{"go1.21.0"}),
@@ -86,7 +87,7 @@ func zzvC11Builds() map[string]ref.Build {
 // per prefix, coarser than the uploader's per-bucket verdict, so only "sent => flagged present" is required.
 var zzvC11Bucketed = map[string]bool{"c": true, "d": true, "f": true}
 
-var zzvC11Names = []string{"u", "v\nmain.f:+1,+0x1", "c", "c:a", "d:a", "d:c", "d", "zz", "e", "f:x", "s", "s\nmain.f:+1,+0x1", "t\nmain.f:+1,+0x1", "c\nmain.f:+1,+0x1", "s\nmain.g:+2,+0x2\nmain.f:+1,+0x1"}
+var zzvC11Names = []string{"g:z", "h", "u", "v\nmain.f:+1,+0x1", "c", "c:a", "d:a", "d:c", "d", "zz", "e", "f:x", "s", "s\nmain.f:+1,+0x1", "t\nmain.f:+1,+0x1", "c\nmain.f:+1,+0x1", "s\nmain.g:+2,+0x2\nmain.f:+1,+0x1"}
 
 func TestVerifC11View(t *testing.T) {
 	p := vrep.Env()
@@ -287,7 +288,7 @@ func TestVerifC11View(t *testing.T) {
 							}
 							// (both ways only where the build that carries all names was itself uploaded: a
 							// configuration can list a name and still exclude every build, e.g. by empty OS lists)
-							if bname == "approved" && inReport[zzvC11OK] && cp.Name == zzvC11OK.Program && !zzvC11Bucketed[cc.Name] && cc.Active != up {
+							if bname == "approved" && inReport[zzvC11OK] && cp.Name == zzvC11OK.Program && cc.Active != up {
 								fail("viewer-chart-verdict", "chart %q of %q: in-config flag=%v, uploader sent data of that name=%v", cc.Name, cp.Name, cc.Active, up)
 							}
 						}
